@@ -35,10 +35,10 @@ func (devNull) Write(p []byte) (int, error) { return len(p), nil }
 
 // outcome of one store/retrieve call
 type result struct {
-	Doc    *sbom.Document
-	Err    error
-	Exit   bool
-	Panic  string
+	Doc   *sbom.Document
+	Err   error
+	Exit  bool
+	Panic string
 }
 
 func (r result) class() string {
